@@ -102,6 +102,26 @@ func CombFamily(level int) []*Topo {
 			return [][2]int{{w, x}}
 		}},
 	}
+	// a peering path that is a detour: s and t hang directly below the two cores (3 links over the core link) and also
+	// below m2>m resp. q, which peer (s>m>m2~q>t: 4 links, 2 segments)
+	shapes = append(shapes, shape{"peer-detour", func(b *builder) [][2]int {
+		c1 := b.as("1-ff00:0:110", true)
+		c2 := b.as("1-ff00:0:120", true)
+		m2 := b.as("1-ff00:0:111", false)
+		m := b.as("1-ff00:0:112", false)
+		s := b.as("1-ff00:0:113", false)
+		q := b.as("1-ff00:0:121", false)
+		t := b.as("1-ff00:0:122", false)
+		b.link(c1, c2, CoreLink)
+		b.link(c1, m2, ParentChild)
+		b.link(m2, m, ParentChild)
+		b.link(m, s, ParentChild)
+		b.link(c1, s, ParentChild)
+		b.link(c2, q, ParentChild)
+		b.link(q, t, ParentChild)
+		b.link(c2, t, ParentChild)
+		return [][2]int{{m2, q}}
+	}})
 	if level > 0 {
 		// two cores with parallel core links and a three-level multi-homed tree with peering between the subtrees
 		shapes = append(shapes, shape{"2core-deep-peer", func(b *builder) [][2]int {
